@@ -297,6 +297,8 @@ func runC14(c *Ctx) {
 	} else {
 		c.Anchor("TextMarshalerHookFunc")
 	}
+	runConfSubProvenance(c, "R6")
+	runC14Reflect(c)
 }
 
 func nonDebugRefs(refs []ssa.Instruction) []ssa.Instruction {
